@@ -418,6 +418,53 @@ def rule_R14_iter_rev(text: str, counts: dict) -> str:
         counts["R14"] = counts.get("R14", 0) + 1
 
 
+def rule_R15_for_mut_slice(text: str, counts: dict) -> str:
+    """R15: `for X in P { .. *X .. }` where P is a parameter declared `P: &mut [T]` ->
+    `for vmx__N in 0..P.len() { .. P[vmx__N] .. }`: iterating a mutable slice yields each element by
+    mutable reference, in order, exactly once; every use of X in the body must be the dereference `*X`
+    (otherwise the rule does not apply and Verus rejects the text -> undecided)."""
+    n = 0
+    while True:
+        if not text.lstrip().startswith(("pub", "fn", "const", "async", "unsafe")):
+            return text
+        toks = rustlex.lex(text)
+        sg = [i for i, t in enumerate(toks) if t.kind not in ("ws", "comment", "doc")]
+        sig_text = text[:rustlex.fn_shape(text).sig_end]
+        hit = None
+        for p, i in enumerate(sg):
+            if toks[i].kind == "ident" and toks[i].text == "for" and p + 4 < len(sg):
+                x, kw, e, br = (toks[sg[p + k]] for k in (1, 2, 3, 4))
+                if (x.kind == "ident" and kw.text == "in" and e.kind == "ident" and br.text == "{"
+                        and re.search(r"\b" + re.escape(e.text) + r"\s*:\s*&\s*mut\s*\[", sig_text)):
+                    close = rustlex.match_close(toks, sg[p + 4])
+                    body = [k for k in sg if sg[p + 4] < k < close]
+                    uses = [q for q, k in enumerate(body) if toks[k].kind == "ident" and toks[k].text == x.text]
+                    if uses and all(q > 0 and toks[body[q - 1]].text == "*" for q in uses):
+                        hit = (i, sg[p + 4], [(body[q - 1], body[q]) for q in uses], e.text)
+                        break
+        if not hit:
+            return text
+        n += 1
+        i, br, uses, e = hit
+        out = []
+        edits = {a: (b, f"{e}[vmx__{n}]") for a, b in uses}
+        k = 0
+        while k < len(toks):
+            if k == i:
+                nl = text[toks[i].start:toks[br].end].count("\n")
+                out.append(f"for vmx__{n} in 0..{e}.len() {{" + "\n" * nl)
+                k = br + 1
+            elif k in edits:
+                b, rep = edits[k]
+                out.append(rep + "\n" * text[toks[k].start:toks[b].end].count("\n"))
+                k = b + 1
+            else:
+                out.append(toks[k].text)
+                k += 1
+        text = "".join(out)
+        counts["R15"] = counts.get("R15", 0) + 1
+
+
 def keep_attr(a: str) -> bool:
     return False
 
@@ -672,6 +719,7 @@ class UnitBuilder:
             text = rule_R12_for_ref(text, self.counts)
             text = rule_R13_for_tuple_tail(text, self.counts)
             text = rule_R14_iter_rev(text, self.counts)
+            text = rule_R15_for_mut_slice(text, self.counts)
         for rule, frm, to in self.spec.rewrites:
             text = rule_R3_token_replace(text, frm, to, rule, self.counts)
         # R4 on the full item text (attributes before decl were already excluded by using it.decl)
